@@ -1,6 +1,6 @@
 ---------------------------- MODULE Gen_Nowiki ----------------------------
 EXTENDS Nowiki, Json
-CONSTANTS MaxTok, Mode, Depth, DeepAll, FinRule   \* Mode = "nowiki" | "comment" | "nested" (frames up to Depth deep)
+CONSTANTS MaxTok, Mode, Depth, DeepAll, FinRule   \* Mode = "nowiki" | "comment" (Depth = width of the line layouts) | "nested" (frames up to Depth deep)
 
 \* token alphabet for payloads (each token a sequence of characters)
 Tokens == { <<"{", "{", "T", "1", "|", "x", "}", "}">>, <<"{", "{", "{", "1", "}", "}", "}">>, <<"[", "[", "a", "]", "]">>,
@@ -37,10 +37,104 @@ Weight(fs, k) == IF fs = <<>> THEN 0 ELSE k * FNum(fs[1]) + Weight(Tail(fs), k +
 PayIdx(fs) == IF Len(fs) < Depth \/ DeepAll THEN <<1, 2, 3, 4>> ELSE << (Weight(fs, 1) % 4) + 1 >>
 NestCases(z) == UNION { { [fs |-> fs, o |-> o] : o \in OptsFor(fs) } : fs \in NestStacks(Depth) }
 
+(* ---- comment LINE LAYOUTS (Mode = "comment"): what stands around a comment on its line.
+   A layout is  lead.pre . ind . group . aft . lead.post  put into an embedding context:
+     lead   what precedes the comment's line: nothing, text without / with a line break, a blank
+            before the line break, an empty line, a list item, a table (row) start, a heading, a
+            preformatted line
+     ind    the blanks / tabs between the line break and the comment
+     group  one comment, two comments (adjacent, a blank / a line break / a line break and a blank /
+            a letter between them), an empty and a multi-line comment
+     aft    what follows on the same line: nothing, text, blank + text, only a blank, the next line,
+            a list marker / table cell / table row / heading / template call / rule / paired nowiki
+            (the comment then stands at the START of that construct's line)
+   and [pre |-> <<"{", "|", "NL">>, x |-> <<"|">>, y |-> <<"-">>, post |-> <<"NL", "|", "SP", "x", "NL", "|", "}">>],
+              [pre |-> <<>>, x |-> <<"{">>, y |-> <<"|">>, post |-> <<"NL", "|", "SP", "x", "NL", "|", "}">>],
+              [pre |-> <<"a", "NL">>, x |-> <<"=">>, y |-> <<"=">>, post |-> <<"h", "=", "=", "NL">>],
+              [pre |-> <<>>, x |-> <<"[">>, y |-> <<"[">>, post |-> <<"a", "]", "]">>],
+              [pre |-> <<>>, x |-> <<"{">>, y |-> <<"{">>, post |-> <<"T", "1", "|", "x", "}", "}">>],
+              [pre |-> <<>>, x |-> <<"'">>, y |-> <<"'">>, post |-> <<"i", "'", "'">>],
+              [pre |-> <<"{", "|", "NL", "|", "SP", "x", "NL">>, x |-> <<"|">>, y |-> <<"}">>, post |-> <<>>],
+              [pre |-> <<"a", "NL">>, x |-> <<"-">>, y |-> <<"-">>, post |-> <<"-", "-">>],
+              [pre |-> <<"a", "NL">>, x |-> <<"*">>, y |-> <<"*">>, post |-> <<"SP", "b">>],
+              [pre |-> <<>>, x |-> <<"_">>, y |-> <<"_">>, post |-> <<"T", "O", "C", "_", "_">>],
+              [pre |-> <<>>, x |-> <<"<">>, y |-> <<"b">>, post |-> <<">", "x", "<", "/", "b", ">">>],
+              [pre |-> <<>>, x |-> <<"&">>, y |-> <<"a">>, post |-> <<"m", "p", ";">>],
+              [pre |-> <<>>, x |-> <<"{", "{", "T", "1">>, y |-> <<"|">>, post |-> <<"x", "}", "}">>],
+              [pre |-> <<>>, x |-> <<"[", "[", "a">>, y |-> <<"|">>, post |-> <<"b", "]", "]">>],
+              [pre |-> <<>>, x |-> <<"{", "{", "T", "1", "|", "x", "}">>, y |-> <<"}">>, post |-> <<>>],
+              [pre |-> <<"*", "SP", "a", "NL">>, x |-> <<"*">>, y |-> <<":">>, post |-> <<"SP", "b">>] layouts  pre . x . sep . comment . y . post  where x y is a token of its own
+   ("|" "-", "{" "|", "=" "=", ...), sep a line break and / or a blank or nothing.
+   Depth = 0: two sub-products (everything before the comment x few afts, few leads x everything
+   after it); Depth >= 1: the full product with more indentations.  The written text, the reference
+   (StripRef), the body reference (rule "only") and the results of the mistaken rules where they
+   differ are computed here; FinRule = "fixpoint" stands for the code's rule "direct", any other
+   value names the rule under demonstration (Demo_Nowiki_c*.cfg).                              *)
+Cm(p) == <<"<!--">> \o p \o <<"-->">>
+CmZ == Cm(<<"SP", "z", "SP">>)
+CmY == Cm(<<"y">>)
+NwX == <<"<nowiki>", "[", "[", "x", "]", "]", "</nowiki>">>
+CLeads(z) == { [pre |-> <<>>, post |-> <<>>],
+               [pre |-> <<"a">>, post |-> <<>>],
+               [pre |-> <<"a", "SP">>, post |-> <<>>],
+               [pre |-> <<"a", "NL">>, post |-> <<>>],
+               [pre |-> <<"a", "SP", "NL">>, post |-> <<>>],
+               [pre |-> <<"a", "NL", "NL">>, post |-> <<>>],
+               [pre |-> <<"*", "SP", "a", "NL">>, post |-> <<>>],
+               [pre |-> <<"{", "|", "NL", "|", "-", "NL">>, post |-> <<"NL", "|", "}">>],
+               [pre |-> <<"=", "=", "h", "=", "=", "NL">>, post |-> <<>>],
+               [pre |-> <<"SP", "a", "NL">>, post |-> <<>>],
+               [pre |-> <<"{", "|", "NL">>, post |-> <<"NL", "|", "}">>] }
+CLeadsWide(z) == { [pre |-> <<";", "a", "NL">>, post |-> <<>>], [pre |-> <<"#", "SP", "a", "NL">>, post |-> <<>>], [pre |-> <<"{", "|", "NL", "|", "SP", "x", "NL">>, post |-> <<"NL", "|", "}">>] }
+CLeadsFew(z) == { [pre |-> <<>>, post |-> <<>>], [pre |-> <<"a", "NL">>, post |-> <<>>], [pre |-> <<"a", "SP", "NL">>, post |-> <<>>], [pre |-> <<"{", "|", "NL", "|", "-", "NL">>, post |-> <<"NL", "|", "}">>] }
+CInds(z) == { <<>>, <<"SP">>, <<"TAB">> }
+CIndsWide(z) == { <<"SP", "SP">>, <<"SP", "TAB">>, <<"TAB", "SP">> }
+CGroups(z) == { CmZ, Cm(<<>>), CmZ \o CmY, CmZ \o <<"SP">> \o CmY, CmZ \o <<"NL">> \o CmY, CmZ \o <<"NL", "SP">> \o CmY,
+                CmZ \o <<"b">> \o CmY, Cm(<<"NL", "*", "NL">>) }
+CGroupsFew(z) == { CmZ, CmZ \o <<"SP">> \o CmY, CmZ \o <<"NL">> \o CmY }
+CAfts(z) == { <<>>, <<"b">>, <<"SP", "b">>, <<"SP">>, <<"NL", "c">>, <<"SP", "NL", "c">>, <<"*", "SP", "b">>, <<"#", "SP", "b", "NL", "#", "SP", "c">>, <<"|", "SP", "c">>, <<"|", "-", "NL", "|", "SP", "c">>, <<"=", "=", "h", "=", "=">>, <<"{", "{", "T", "1", "|", "x", "}", "}">>, <<"NL", "NL", "c">>, <<":", "b">>, <<"-", "-", "-", "-">>, NwX }
+CAftsFew(z) == { <<>>, <<"b">>, <<"*", "SP", "b">>, <<"|", "SP", "c">> }
+CAftsEmb(z) == { <<>>, <<"b">>, <<"SP", "b">>, <<"NL", "c">>, <<"|", "c">> }
+CSeps(z) == { <<>>, <<"NL">>, <<"SP">>, <<"NL", "SP">>, <<"NL", "TAB">> }
+CGlue(z) == { [pre |-> <<"{", "|", "NL">>, x |-> <<"|">>, y |-> <<"-">>, post |-> <<"NL", "|", "SP", "x", "NL", "|", "}">>],
+              [pre |-> <<>>, x |-> <<"{">>, y |-> <<"|">>, post |-> <<"NL", "|", "SP", "x", "NL", "|", "}">>],
+              [pre |-> <<"a", "NL">>, x |-> <<"=">>, y |-> <<"=">>, post |-> <<"h", "=", "=", "NL">>],
+              [pre |-> <<>>, x |-> <<"[">>, y |-> <<"[">>, post |-> <<"a", "]", "]">>],
+              [pre |-> <<>>, x |-> <<"{">>, y |-> <<"{">>, post |-> <<"T", "1", "|", "x", "}", "}">>],
+              [pre |-> <<>>, x |-> <<"'">>, y |-> <<"'">>, post |-> <<"i", "'", "'">>],
+              [pre |-> <<"{", "|", "NL", "|", "SP", "x", "NL">>, x |-> <<"|">>, y |-> <<"}">>, post |-> <<>>],
+              [pre |-> <<"a", "NL">>, x |-> <<"-">>, y |-> <<"-">>, post |-> <<"-", "-">>],
+              [pre |-> <<"a", "NL">>, x |-> <<"*">>, y |-> <<"*">>, post |-> <<"SP", "b">>],
+              [pre |-> <<>>, x |-> <<"_">>, y |-> <<"_">>, post |-> <<"T", "O", "C", "_", "_">>],
+              [pre |-> <<>>, x |-> <<"<">>, y |-> <<"b">>, post |-> <<">", "x", "<", "/", "b", ">">>],
+              [pre |-> <<>>, x |-> <<"&">>, y |-> <<"a">>, post |-> <<"m", "p", ";">>],
+              [pre |-> <<>>, x |-> <<"{", "{", "T", "1">>, y |-> <<"|">>, post |-> <<"x", "}", "}">>],
+              [pre |-> <<>>, x |-> <<"[", "[", "a">>, y |-> <<"|">>, post |-> <<"b", "]", "]">>],
+              [pre |-> <<>>, x |-> <<"{", "{", "T", "1", "|", "x", "}">>, y |-> <<"}">>, post |-> <<>>],
+              [pre |-> <<"*", "SP", "a", "NL">>, x |-> <<"*">>, y |-> <<":">>, post |-> <<"SP", "b">>] }
+Embed(e, t) ==
+  CASE e = "top"  -> t
+    [] e = "targ" -> <<"{", "{", "T", "1", "|">> \o t \o <<"}", "}">>
+    [] e = "link" -> <<"[", "[", "a", "|">> \o t \o <<"]", "]">>
+    [] e = "list" -> <<"*", "SP">> \o t \o <<"NL">>
+    [] e = "cell" -> <<"{", "|", "NL", "|", "SP">> \o t \o <<"NL", "|", "}">>
+Lay(l, i, g, a) == l.pre \o i \o g \o a \o l.post
+Layouts(z) ==
+  (IF Depth = 0
+   THEN { Lay(l, i, g, a) : l \in CLeads(0), i \in CInds(0), g \in CGroups(0), a \in CAftsFew(0) }
+        \cup { Lay(l, i, g, a) : l \in CLeadsFew(0), i \in {<<>>, <<"SP">>}, g \in CGroups(0), a \in CAfts(0) }
+   ELSE { Lay(l, i, g, a) : l \in CLeads(0) \cup CLeadsWide(0), i \in CInds(0) \cup CIndsWide(0), g \in CGroups(0), a \in CAfts(0) })
+  \cup { t.pre \o t.x \o sp \o g \o t.y \o t.post : t \in CGlue(0), sp \in CSeps(0), g \in {CmZ} \cup (IF Depth = 0 THEN {} ELSE {CmZ \o <<"SP">>, CmZ \o CmY}) }
+LayCases(z) == { [k |-> "lay", emb |-> "top", doc |-> <<>>, w |-> t] : t \in Layouts(0) }
+               \cup { [k |-> "lay", emb |-> e, doc |-> <<>>, w |-> Embed(e, Lay(l, i, g, a))] :
+                        e \in {"targ", "link", "list", "cell"}, l \in CLeadsFew(0) \cup {[pre |-> <<"a">>, post |-> <<>>]},
+                        i \in CInds(0) \cup (IF Depth = 0 THEN {} ELSE CIndsWide(0)), g \in (IF Depth = 0 THEN CGroupsFew(0) ELSE CGroups(0)), a \in CAftsEmb(0) }
+CRule == IF FinRule = "fixpoint" THEN "direct" ELSE FinRule
+
 VARIABLE case
 Init == IF Mode = "nested" THEN case \in NestCases(0)
         ELSE IF Mode = "nowiki" THEN case \in { [ctx |-> x, c |-> c] : x \in Contexts, c \in Payloads }
-        ELSE case \in { [doc |-> d] : d \in Docs }
+        ELSE case \in { [k |-> "doc", emb |-> "top", doc |-> d, w |-> Written(d)] : d \in Docs } \cup LayCases(0)
 Next == UNCHANGED case
 Spec == Init /\ [][Next]_case
 
@@ -61,6 +155,13 @@ Emit == IF Mode = "nested"
         ELSE IF Mode = "nowiki"
         THEN PrintT(<<"CASE", ToJson([ctx |-> case.ctx, input |-> Input(case.ctx, case.c), expanded |-> Expanded(case.ctx, case.c),
                                       path |-> LeafPath(case.ctx), leaf |-> LeafText(case.ctx, case.c), c |-> case.c])>>)
-        ELSE PrintT(<<"CASE", ToJson([written |-> Written(case.doc), stripped |-> Strip(case.doc)])>>)
+        ELSE IF case.k = "doc"
+        THEN /\ StripRef(case.w) = Strip(case.doc)            \* the two formulations of the statement agree
+             /\ PrintT(<<"CASE", ToJson([k |-> "doc", emb |-> "top", written |-> case.w, stripped |-> Strip(case.doc)])>>)
+        ELSE \E ref \in {StripRef(case.w)} :
+               /\ StripScan(case.w, 1, CRule) = ref            \* the code's step gives what the statement demands
+               /\ PrintT(<<"CASE", ToJson([k |-> "lay", emb |-> case.emb, written |-> case.w, stripped |-> ref,
+                                           only |-> StripScan(case.w, 1, "only"),
+                                           alts |-> { x \in { [rule |-> r, text |-> StripScan(case.w, 1, r)] : r \in CMistakes \cup {"only"} } : x.text # ref }])>>)
 GenInv == Laws /\ Emit
 =============================================================================
